@@ -50,6 +50,18 @@ def check(prop: str, tier: str, rep: Report | None = None) -> Report:
     configs, behs, ex = export_behaviours(ex_cfg, f"{prop}-exp", module="PolicyMC.tla")
     variants = VARIANTS[:2] if (prop == "C07" and tier == "quick") else VARIANTS
     n_replayed, mism = replay_behaviours(configs, behs, variants, level="policy")
+    ext_cov: dict = {}
+    if prop in ("C07", "C14"):
+        # the breaker is also used directly, between the policy calls, by someone else
+        xm = run_tlc("PolicyMC.tla", "PolicyMC_EXT.cfg", tag=f"{prop}-ext-mc", timeout=3000)
+        if not xm.ok:
+            raise Machinery(f"spec-level counterexample: M violates {xm.violated} in PolicyMC_EXT.cfg")
+        xconfigs, xbehs, xres = export_behaviours("PolicyMC_EXTx.cfg", f"{prop}-ext", module="PolicyMC.tla")
+        xn, xmism = replay_behaviours(xconfigs, xbehs, VARIANTS[:2], level="policy")
+        n_replayed += xn
+        mism = mism + xmism
+        ext_cov = {"direct_breaker_ops": {"mc_states": xm.distinct, "behaviours_exported": len(xbehs),
+                                          "replays": xn, "replay_mismatches": len(xmism)}}
     v1 = tlc_validate("PolicyTrace", mism, f"{prop}-mism") if mism else []
     nonconf = judge(rep, prop, mism, v1, "S->C replay of a TLC behaviour")
     extra: dict = {}
@@ -81,7 +93,7 @@ def check(prop: str, tier: str, rep: Report | None = None) -> Report:
         "traces_validated_against_impl": n_replayed + prev.get("traces_validated_against_impl", 0),
         "entry_points": ["Policy.call", "Policy.execute", "AsyncPolicy.call", "AsyncPolicy.execute",
                          "with and without retry component"],
-        "exhaustive": True, "canary": "trace without its settlement record rejected", **extra,
+        "exhaustive": True, "canary": "trace without its settlement record rejected", **extra, **ext_cov,
         "samples": [{"cfg": configs[behs[i]["c"] - 1], "predicted_and_observed_trace": behs[i]["h"]}
                     for i in (0, len(behs) // 2)] + prev.get("samples", [])[:1],
     })
